@@ -92,7 +92,7 @@ func runC24(c *core.Ctx) error {
 		return err
 	}
 	res, err := c.MustTLC(core.TLCOpts{Module: "MC_SchemaSpace", Cfg: "MC_SchemaTags.cfg", Workers: 4, Timeout: 10 * time.Minute,
-		Consts: map[string]string{"TAGKINDS": `{"zero", "copy", "crc", "fresh"}`, "MAXTAGS": fmt.Sprint(c.Pick(2, 3)), "BASES": `{"b1", "b2", "b3"}`}})
+		Consts: map[string]string{"TAGKINDS": `{"zero", "copy", "crc", "fresh"}`, "MAXTAGS": fmt.Sprint(c.Pick(2, 3)), "BASES": `{"b1", "b2", "b3", "b5"}`}})
 	if err != nil {
 		return err
 	}
